@@ -13,7 +13,9 @@ TRUSTED = [
     "Model/SqlLex.v models the reading side (standard '' doubling; backslash family per sqlparser's supports_string_literal_backslash_escape) from documentation; validated against SQLite itself (end-to-end) and sqlparser's per-dialect tokenizers; the ten non-executable engines' real lexers are NOT exercised",
     "which dialect READS backslash escapes (Gen table reader_backslash_escape) is what the pinned sqlparser's dialect objects say (harness c08_dialects), standing in for the engines' documentation; which dialect WRITES doubled backslashes is read from sql/dialect.rs",
     "Model/Literal.v is a hand model of the PRQL literal lexers, validated against prqlc::prql_to_tokens and an independent python decoder written from the language reference",
-    "binary64 rounding and Rust's {:?} float printing are not modelled: floats are checked end-to-end only, on spellings exact in binary (plus extremes)",
+    "floats: Model/FloatRyu.v (decimal -> nearest binary64, proved a correct rounding; shortest digits, proved to lie in the rounding interval, minimality NOT proved) and Model/FloatFmt.v ({:?} layout) are hand models of Rust's str::parse::<f64> and core::fmt float printing (dependency code), validated on every float spelling of the run against prqlc's text and the lexer's bit patterns; SQLite's own decimal->double conversion is not modelled (4-ulp tolerance outside its exact zone)",
+    "Model/SqlLexBq.v models sqlparser's BigQuery tokenizer (dq = true, validated token by token) and BigQuery's documented string syntax (dq = false, documentation only)",
+    "Model/Interval.v: sqlparser's Display of ast::Interval and of DateTimeField (upper-cased variant names) is dependency behaviour, validated through the hook on every interval call",
     "harness (prqlc::compile, rusqlite bundled SQLite) and python comparison code",
 ]
 
@@ -751,6 +753,6 @@ def run():
 
     ck.proof_broken_violation(found_input=bool(ck.violations))
     ck.assumptions += ["NUL characters are excluded from executed strings (SQLite's API ends the statement text at NUL)",
-                       "float spellings in the end-to-end stream are exact in binary64 or have at most 17 significant digits",
+                       "float spellings in the end-to-end stream have at most 19 significant digits (exact-in-binary, 16-17 digit, halfway and subnormal cases included)",
                        "date/time literals are generated valid (the lexer accepts any digit shape; 13th months are a C10-style question)"]
     ck.finish(TRUSTED, "escape/lexer models: all strings of length <= %d over %d characters (quotes, backslash, newline, comment markers, ;, non-ASCII) plus random longer ones, every one distinct, non-trivial = contains a quote or backslash; literal decoding: every quote style/escape form/raw/f-string spelling of %d values, number spellings, dates; end-to-end: each spelling compiled for sqlite and generic and executed, in select / filter / array-literal / f-string-hole skeletons; for all 12 dialects: prqlc's literal text for every enumerated string = the model's, every dialect's sqlparser tokenizer reads its text back (bigquery excepted: F6c), token structure of the statement around a literal in select / relation-literal / WHERE / f-string contexts" % (n_ex, len(ALPHA), len(vals_pool)))
